@@ -1,6 +1,6 @@
 CONFIG = dict(
-    coqfiles=["Props/C14.v", "Props/C14F.v", "Props/C14A.v"],
-    sub=["C14F", "C14A"],
+    coqfiles=["Props/C14.v", "Props/C14F.v", "Props/C14A.v", "Props/C14P.v"],
+    sub=["C14F", "C14A", "C14P"],
     n_quick=3000, n_thorough=120000, workers_quick=8,
     rule="40% ByteStream.Write through the real service with a fake request stream (identity / zstd via the real pkg/zstd pool; payload cut into 1-6 messages "
          "incl. empty ones; half of them damaged by 1-2 of: gap, overlap, non-zero first offset, finish_write missing / early / repeated, data after finish, "
@@ -20,5 +20,6 @@ CONFIG = dict(
               "backend: harness-owned map; Put consumes the buffer to completion (ToByteSlice, 1 MiB limit) or discards it and fails; Get hands out digest-validated byte-slice buffers",
               "a compressed upload is over at its first finish_write: later messages are not read by the service and are not part of the statement (the identity path rejects them)",
               "digests of kinds 0-6 live under ONE instance name and digest function (MD5); several instance names / digest functions in one history and in one FindMissing call are the sub-check C14F (harness/c14f.go, Run/R14F.v, Rpc/FindMissingMulti.v); its cases are folded into this check",
-              "the Action Cache cases (kind 6) drive the server alone with one digest function; grpcclients.NewACBlobAccess in front of the server, all supported digest functions and the digest_function field (explicit / UNKNOWN) are the sub-check C14A (harness/c14a.go, Run/R14A.v, Rpc/ActionCache.v); its cases are folded into this check"],
+              "the Action Cache cases (kind 6) drive the server alone with one digest function; grpcclients.NewACBlobAccess in front of the server, all supported digest functions and the digest_function field (explicit / UNKNOWN) are the sub-check C14A (harness/c14a.go, Run/R14A.v, Rpc/ActionCache.v); its cases are folded into this check",
+              "in the client<->server cases (kind 5) the backend's Put never fails and data not matching the digest is rejected inside the client (error buffer) before anything is sent: uploads that fail only with the FINAL status of the Write RPC (backend failure after consuming the upload; server-side rejection of data sent through a buffer without a client-side check) are the sub-check C14P (harness/c14p.go, Run/R14P.v); its cases are folded into this check"],
 )
